@@ -146,7 +146,7 @@ def check_block_signatures(nodes: typing.List[ValidatorDescr], signatures: typin
 
         signed_weight += node.weight
 
-    if signed_weight * 3 >= total_weight * 2:  # >= 2/3
+    if signed_weight * 3 > total_weight * 2:  # strictly more than 2/3
         return
 
     raise ProofError(f'Block {blk} has not been signed by 2/3 of validators')
